@@ -46,7 +46,9 @@ static inline uint64_t bits_of(float a) { return b32(a); }
 static inline uint64_t bits_of(double a) { return b64(a); }
 static inline uint64_t bits_of(bool a) { return a; }
 enum Cmp { BITS, VALUE, ULPS, LOWPREL };
+static thread_local int g_checked = 0;   // number of lane comparisons actually executed for the current case (vacuity accounting)
 template <typename A> static inline bool cmp_lane(A a, A b, int cmp, bool lowp, double mag = 0) {
+  ++g_checked;
   if (cmp == BITS) return same_bits(a, b); if (cmp == VALUE) return same_value(a, b);
   if (std::is_floating_point<A>::value) { double x = (double)a, y = (double)b; if (x != x || y != y || std::isinf(x) || std::isinf(y) || !(mag - mag == 0)) return true;    // composite formulas: only finite results are compared
     double u = sizeof(A) == 4 ? 5.97e-8 : 1.12e-16; if (cmp == LOWPREL) return lowp ? std::fabs(x - y) <= std::ldexp(1.0, -8) * std::fabs(y) : same_bits(a, b);
@@ -70,7 +72,7 @@ template <class OP, typename T, int L, glm::qualifier Q> static bool u1(uint64_t
   return true;
 }
 template <class OP, typename T, glm::qualifier Q> static bool u1q(uint64_t i, Outcome& o) { return u1<OP, T, 1, Q>(i, o) && u1<OP, T, 2, Q>(i, o) && u1<OP, T, 3, Q>(i, o) && u1<OP, T, 4, Q>(i, o); }
-template <class OP, typename T> static void op_u1(const Case& c, Outcome& o) { o.cls(0); if (!u1q<OP, T, glm::highp>(c.w[0], o)) return; if (!u1q<OP, T, glm::lowp>(c.w[0], o)) return; u1q<OP, T, glm::mediump>(c.w[0], o); }
+template <class OP, typename T> static void op_u1(const Case& c, Outcome& o) { o.cls(0); g_checked = 0; struct G { Outcome& o; ~G() { if (!g_checked) o.nontrivial = false; } } g_{o}; if (!u1q<OP, T, glm::highp>(c.w[0], o)) return; if (!u1q<OP, T, glm::lowp>(c.w[0], o)) return; u1q<OP, T, glm::mediump>(c.w[0], o); }
 
 // ---- binary: vv, and (optionally) vs / sv broadcast forms
 template <class OP, typename T, typename T2, int L, glm::qualifier Q, int SHAPES> static bool b2(uint64_t i, uint64_t j, Outcome& o) {
@@ -87,7 +89,7 @@ template <class OP, typename T, typename T2, int L, glm::qualifier Q, int SHAPES
   return true;
 }
 template <class OP, typename T, typename T2, glm::qualifier Q, int SH> static bool b2q(uint64_t i, uint64_t j, Outcome& o) { return b2<OP, T, T2, 1, Q, SH>(i, j, o) && b2<OP, T, T2, 2, Q, SH>(i, j, o) && b2<OP, T, T2, 3, Q, SH>(i, j, o) && b2<OP, T, T2, 4, Q, SH>(i, j, o); }
-template <class OP, typename T, typename T2, int SH> static void op_b2(const Case& c, Outcome& o) { o.cls(0); if (!b2q<OP, T, T2, glm::highp, SH>(c.w[0], c.w[1], o)) return; if (!b2q<OP, T, T2, glm::lowp, SH>(c.w[0], c.w[1], o)) return; b2q<OP, T, T2, glm::mediump, SH>(c.w[0], c.w[1], o); }
+template <class OP, typename T, typename T2, int SH> static void op_b2(const Case& c, Outcome& o) { o.cls(0); g_checked = 0; struct G { Outcome& o; ~G() { if (!g_checked) o.nontrivial = false; } } g_{o}; if (!b2q<OP, T, T2, glm::highp, SH>(c.w[0], c.w[1], o)) return; if (!b2q<OP, T, T2, glm::lowp, SH>(c.w[0], c.w[1], o)) return; b2q<OP, T, T2, glm::mediump, SH>(c.w[0], c.w[1], o); }
 
 // ---- ternary: vvv and the scalar-edge variants  SHAPES: 1 = (v,s,s)  2 = (v,v,s)  4 = (s,s,v)
 template <class OP, typename T, typename T3, int L, glm::qualifier Q, int SHAPES> static bool t3(uint64_t i, uint64_t j, uint64_t l, Outcome& o) {
@@ -100,7 +102,7 @@ template <class OP, typename T, typename T3, int L, glm::qualifier Q, int SHAPES
   return true;
 }
 template <class OP, typename T, typename T3, glm::qualifier Q, int SH> static bool t3q(uint64_t i, uint64_t j, uint64_t l, Outcome& o) { return t3<OP, T, T3, 1, Q, SH>(i, j, l, o) && t3<OP, T, T3, 2, Q, SH>(i, j, l, o) && t3<OP, T, T3, 3, Q, SH>(i, j, l, o) && t3<OP, T, T3, 4, Q, SH>(i, j, l, o); }
-template <class OP, typename T, typename T3, int SH> static void op_t3(const Case& c, Outcome& o) { o.cls(0); if (!t3q<OP, T, T3, glm::highp, SH>(c.w[0], c.w[1], c.w[2], o)) return; if (!t3q<OP, T, T3, glm::lowp, SH>(c.w[0], c.w[1], c.w[2], o)) return; t3q<OP, T, T3, glm::mediump, SH>(c.w[0], c.w[1], c.w[2], o); }
+template <class OP, typename T, typename T3, int SH> static void op_t3(const Case& c, Outcome& o) { o.cls(0); g_checked = 0; struct G { Outcome& o; ~G() { if (!g_checked) o.nontrivial = false; } } g_{o}; if (!t3q<OP, T, T3, glm::highp, SH>(c.w[0], c.w[1], c.w[2], o)) return; if (!t3q<OP, T, T3, glm::lowp, SH>(c.w[0], c.w[1], c.w[2], o)) return; t3q<OP, T, T3, glm::mediump, SH>(c.w[0], c.w[1], c.w[2], o); }
 
 template <typename T> static Domain D1() { return range("VALUES<" + std::to_string(values<T>().size()) + ">", 0, values<T>().size(), false); }
 template <class OP, typename T> static void R1(Engine& E, const char* tn) { Op& op = E.add(std::string(OP::name()) + "(v) <" + tn + "> L=1..4 x {highp,mediump,lowp}", op_u1<OP, T>); op.quick = {D1<T>()}; }
@@ -126,8 +128,8 @@ DEF_FN_PRE(smoothstep, ULPS, template <class A> static bool pre(A e0, A e1, A) {
 DEF_FN(bitCount, BITS) DEF_FN(findLSB, BITS) DEF_FN(findMSB, BITS) DEF_FN(bitfieldReverse, BITS) DEF_FN_PRE(isPowerOfTwo, BITS, template <class A> static bool pre(A x) { return x > 0; })
 DEF_FN_PRE(nextPowerOfTwo, BITS, template <class A> static bool pre(A x) { return x > 0 && x <= (A)(std::numeric_limits<A>::max() / 2); }) DEF_FN_PRE(prevPowerOfTwo, BITS, template <class A> static bool pre(A x) { return x > 0; })
 DEF_FN_PRE(isMultiple, BITS, template <class A> static bool pre(A, A m) { return m > 0; })
-DEF_FN_PRE(nextMultiple, BITS, template <class A> static bool pre(A x, A m) { return m > 0 && m < 1000 && x < (A)(std::numeric_limits<A>::max() - 1000) && x > (A)(std::numeric_limits<A>::min() + 1000); })
-DEF_FN_PRE(prevMultiple, BITS, template <class A> static bool pre(A x, A m) { return m > 0 && m < 1000 && x < (A)(std::numeric_limits<A>::max() - 1000) && x > (A)(std::numeric_limits<A>::min() + 1000); })
+DEF_FN_PRE(nextMultiple, BITS, template <class A> static bool pre(A x, A m) { return m > 0 && m <= (A)(std::numeric_limits<A>::max() / 4) && x <= (A)(std::numeric_limits<A>::max() - m) && (std::numeric_limits<A>::min() == 0 || x >= (A)(std::numeric_limits<A>::min() + m)); })
+DEF_FN_PRE(prevMultiple, BITS, template <class A> static bool pre(A x, A m) { return m > 0 && m <= (A)(std::numeric_limits<A>::max() / 4) && x <= (A)(std::numeric_limits<A>::max() - m) && (std::numeric_limits<A>::min() == 0 || x >= (A)(std::numeric_limits<A>::min() + m)); })
 DEF_FN_PRE(findNSB, BITS, template <class A> static bool pre(A, int n) { return n >= 1 && n <= 64; })
 // relational functions have no scalar overload: the scalar side is the C++ operator
 #define DEF_REL(NAME, OPR) struct F_##NAME { template <class... A> static double mag(A...) { return 0; } static const char* name() { return #NAME; } enum { CMP = BITS }; template <int L, class T, glm::qualifier Q> static glm::vec<L, bool, Q> f(glm::vec<L, T, Q> a, glm::vec<L, T, Q> b) { return glm::NAME(a, b); } \
@@ -197,6 +199,13 @@ template <typename T> static void op_matrix(const Case& c, Outcome& o) { o.cls(0
       if (e[cc] != alleq || ne[cc] == alleq || ee[cc] != alle || nee[cc] != anyne) { o.res(e[cc], ee[cc]); o.exp(alleq, alle); o.bad(40 + C * 4 + R, "equal/notEqual(mat,mat[,epsilon]): column verdict is not the conjunction of the element verdicts"); return; } } }
   MXL(2, 2) MXL(2, 3) MXL(2, 4) MXL(3, 2) MXL(3, 3) MXL(3, 4) MXL(4, 2) MXL(4, 3) MXL(4, 4) }
 
+template <typename T, int L, glm::qualifier Q> static bool findnsb_one(uint64_t i, uint64_t n, Outcome& o) {
+  const int w = sizeof(T) * 8; glm::vec<L, T, Q> v; glm::vec<L, int, Q> c; for (int k = 0; k < L; ++k) { v[k] = pick<T>(i, k, 0); c[k] = 1 + (int)((n + 5 * k) % (w + 1)); }
+  glm::vec<L, int, Q> r = glm::findNSB(v, c); for (int k = 0; k < L; ++k) { int s = glm::findNSB(v[k], c[k]); if (r[k] != s) { o.res((uint64_t)(int64_t)r[k], (uint64_t)k); o.exp((uint64_t)(int64_t)s); o.bad(L * 4 + QN<Q>::id, "findNSB(vec, ivec)[i] != findNSB(v[i], n[i])"); return false; } }
+  return true; }
+template <typename T> static void op_findnsb(const Case& c, Outcome& o) { o.cls(0);
+#define NQ(Q) if (!findnsb_one<T, 1, Q>(c.w[0], c.w[1], o) || !findnsb_one<T, 2, Q>(c.w[0], c.w[1], o) || !findnsb_one<T, 3, Q>(c.w[0], c.w[1], o) || !findnsb_one<T, 4, Q>(c.w[0], c.w[1], o)) return;
+  NQ(glm::highp) NQ(glm::lowp) NQ(glm::mediump) }
 template <typename T> static void reg_float_unary(Engine& E, const char* tn) {
   R1<F_radians, T>(E, tn); R1<F_degrees, T>(E, tn); R1<F_sin, T>(E, tn); R1<F_cos, T>(E, tn); R1<F_tan, T>(E, tn); R1<F_asin, T>(E, tn); R1<F_acos, T>(E, tn); R1<F_atan, T>(E, tn); R1<F_sinh, T>(E, tn); R1<F_cosh, T>(E, tn); R1<F_tanh, T>(E, tn);
   R1<F_asinh, T>(E, tn); R1<F_acosh, T>(E, tn); R1<F_atanh, T>(E, tn); R1<F_exp, T>(E, tn); R1<F_log, T>(E, tn); R1<F_exp2, T>(E, tn); R1<F_log2, T>(E, tn); R1<F_sqrt, T>(E, tn); R1<F_inversesqrt, T>(E, tn);
@@ -224,7 +233,7 @@ template <typename T> static void reg_int(Engine& E, const char* tn) {
   R2<F_lessThan, T, T, 0>(E, tn); R2<F_lessThanEqual, T, T, 0>(E, tn); R2<F_greaterThan, T, T, 0>(E, tn); R2<F_greaterThanEqual, T, T, 0>(E, tn); R2<F_equal, T, T, 0>(E, tn); R2<F_notEqual, T, T, 0>(E, tn);
   R1<F_bitCount, T>(E, tn); R1<F_findLSB, T>(E, tn); R1<F_findMSB, T>(E, tn); R1<F_bitfieldReverse, T>(E, tn); R1<F_isPowerOfTwo, T>(E, tn); R1<F_nextPowerOfTwo, T>(E, tn); R1<F_prevPowerOfTwo, T>(E, tn);
   R2<F_isMultiple, T, T, 1>(E, tn); R2<F_nextMultiple, T, T, 1>(E, tn); R2<F_prevMultiple, T, T, 1>(E, tn);
-  { Op& op = E.add(std::string("findNSB(v, ivec) <") + tn + ">", op_b2<F_findNSB, T, int, 0>); op.quick = {product("VALUES x N(0..65)", {D1<T>(), range("N", 0, values<int>().size(), false)})}; }
+  { Op& op = E.add(std::string("findNSB(v, ivec) <") + tn + "> L=1..4 x Q, per-lane counts", op_findnsb<T>); op.quick = {product("VALUES x N(1..w+1)", {D1<T>(), range("N", 1, sizeof(T) * 8 + 1, true)})}; }
   { Op& op = E.add(std::string("mix(x,y,bool) <") + tn + ">", op_t3<F_mix, T, bool, 2>); op.quick = {product("VALUES^2 x {false,true}", {D1<T>(), D1<T>(), D1<bool>()})}; }
   { Op& op = E.add(std::string("compAdd/compMul/compMin/compMax <") + tn + ">", op_reduce<T>); op.quick = {D1<T>()}; }
   if constexpr (std::is_signed<T>::value) { R1<F_abs, T>(E, tn); R1<F_sign, T>(E, tn); }
